@@ -1,9 +1,16 @@
 #!/usr/bin/env python3
 """Regenerates lean/Driver.lean from the list of handler modules lean/MithrilModel/Handlers/Cxx.lean.
 A request whose op starts with `cxx.` is dispatched to `Handlers.Cxx.handle`."""
-import glob, os
+import glob, os, sys
 ROOT = os.path.dirname(os.path.abspath(__file__))
 mods = sorted(os.path.basename(f)[:-5] for f in glob.glob(os.path.join(ROOT, "lean/MithrilModel/Handlers/C*.lean")))
+OUT = os.path.join(ROOT, "lean/Driver.lean")
+# development: `gen_driver.py --only C14,C15 --out work/agg/Driver.lean` writes a private driver
+if "--only" in sys.argv:
+    keep = sys.argv[sys.argv.index("--only") + 1].split(",")
+    mods = [m for m in mods if m in keep]
+if "--out" in sys.argv:
+    OUT = os.path.abspath(sys.argv[sys.argv.index("--out") + 1])
 out = ["import MithrilModel.Proto"] + [f"import MithrilModel.Handlers.{m}" for m in mods]
 out += ["", "def dispatch (line : String) : String :=", "  match Proto.parseReq line with", "  | none => \"bad-request\"",
         "  | some r =>", "    let h : Option String :="]
@@ -16,5 +23,5 @@ out += ["      else none", "    h.getD \"bad-request\"", "",
         "partial def loop (hin : IO.FS.Stream) (hout : IO.FS.Stream) : IO Unit := do",
         "  let line ← hin.getLine", "  if line.isEmpty then return ()", "  hout.putStrLn (dispatch line)", "  loop hin hout", "",
         "def main : IO Unit := do", "  let hin ← IO.getStdin", "  let hout ← IO.getStdout", "  loop hin hout", "  hout.flush", ""]
-open(os.path.join(ROOT, "lean/Driver.lean"), "w").write("\n".join(out))
+open(OUT, "w").write("\n".join(out))
 print("handlers:", mods)
